@@ -503,7 +503,12 @@ class Peer:
         """Reads KEEPALIVE message using async I/O"""
         assert self.proto is not None
         assert self.recv_timer is not None
-        message = await self.proto.read_keepalive()
+        # RFC 4271 8.2.2 OpenConfirm: the hold timer runs with the negotiated value (no timer when it is zero)
+        holdtime = int(self.proto.negotiated.holdtime)
+        try:
+            message = await asyncio.wait_for(self.proto.read_keepalive(), timeout=holdtime or None)
+        except asyncio.TimeoutError:
+            raise Notify(4, 0, 'hold timer expired waiting for the KEEPALIVE in OPENCONFIRM') from None
         self.recv_timer.check_ka_timer(message)
 
     async def _establish(self) -> None:
